@@ -408,6 +408,14 @@ where
                     "Unexpected end of file.",
                 ));
             }
+            if !path_str.ends_with('\n') {
+                // The writer terminates every line. A last line without the terminator means
+                // the report was cut in the middle of a path, which could name a different file.
+                return Err(Error::new(
+                    ErrorKind::UnexpectedEof,
+                    "Unexpected end of file: incomplete path line.",
+                ));
+            }
             if !path_str.starts_with("    ") || path_str.trim().is_empty() {
                 return Err(Error::new(
                     ErrorKind::InvalidData,
